@@ -153,6 +153,38 @@ Theorem nothing_installed_is_the_walker :
 Proof. exact walk_x_no_ext. Qed.
 Print Assumptions nothing_installed_is_the_walker.
 
+(* WHICH RUNS the walker of Model/Interp.v (the theorems above, and those of C02 / C06 / C19) covers.  It never reads
+   the message bundle: for every configuration its run is the run without one ... *)
+Theorem base_walker_ignores_bundle :
+  forall cf fuel n st, walk cf fuel n st = walk (cfg_no_msgs cf) fuel n st.
+Proof. exact walk_ignores_bundle. Qed.
+Print Assumptions base_walker_ignores_bundle.
+Theorem base_render_ignores_bundle :
+  forall cf fuel name id data cl bl fid,
+    render cf fuel name id data cl bl fid = render (cfg_no_msgs cf) fuel name id data cl bl fid.
+Proof. exact render_ignores_bundle. Qed.
+Print Assumptions base_render_ignores_bundle.
+(* ... which is also what the extended walker (evalMsg with the bundle path) does when the bundle translates none of
+   the messages (evalMsg's fallback to the source text): Renderer.Execute without WithMessages, or with a bundle that
+   has no entry for the ids met *)
+Theorem untranslated_bundle_is_the_walker :
+  forall cf, untranslated cf -> forall fuel n st, walk_x cf no_ext fuel n st = walk cf fuel n st.
+Proof. exact walk_x_untranslated. Qed.
+Print Assumptions untranslated_bundle_is_the_walker.
+Theorem untranslated_bundle_is_the_render :
+  forall cf fuel name id data cl bl fid, untranslated cf ->
+    render_x cf no_ext fuel name id data cl bl fid = render cf fuel name id data cl bl fid.
+Proof. intros. apply render_x_untranslated. assumption. Qed.
+Print Assumptions untranslated_bundle_is_the_render.
+(* a run THROUGH a translation is not covered by Model/Interp.v (only by the theorems over walk_x / render_x) *)
+Example ex_translated_run_not_covered :
+  let cf := {| c_reg := empty_registry; c_ij := None; c_oblig := [];
+               c_msgs := Some {| mb_msgs := [(77%N, [NRawText 0%N [118%N]])]; mb_plural := []; mb_plural_default := 0%N |} |} in
+  let n := NMsg 10%N 77%N [] [] [NRawText 11%N [120%N]] in
+  let st := init_state [] 1%N [] None None 2%N in
+  out (snd (walk_x cf no_ext 3 n st)) = [[118%N]] /\ out (snd (walk cf 3 n st)) = [[120%N]].
+Proof. exact translated_run_not_covered. Qed.
+
 (* the message bundle a render is given (s.msgs, an interface value of the caller) and the message it returns are
    read-only to the walker: of everything exec.go's walker does -- every call that is not a pure builtin, every
    assignment whose target is not a local variable, extracted from the source on every run -- the only uses of the
